@@ -90,7 +90,10 @@ impl Activation {
             no_loop: true,
             lock_on_active: false,
             auto_focus: false,
+            #[cfg(not(rre_verif))]
             created_at: std::time::Instant::now(),
+            #[cfg(rre_verif)]
+            created_at: crate::verif_hooks::instant_now(),
             condition_count: 1, // Default to 1
             matched_fact_handle: None,
             id: 0,
